@@ -21,7 +21,7 @@ from lx.tree import PLACEHOLDER
 
 PID = "C14"
 BOUNDS = ("corpus of checks/corpus.py (no-data kinds excluded); S and up to 4 (quick) / 6 (thorough) other table/schema/alias names free, "
-          "2-character bodies (thorough: S also 1 and 3 characters); mechanisms {scoped override, environment}; dialect ansi "
+          "2-character bodies (thorough: S also 1 and 3 characters); mechanisms {scoped override, environment, environment while another key is overridden in scope, scoped override over a different environment value}; dialect ansi "
           "(thorough: + sparksql, tsql, postgres on /plain statements)")
 STUBS = ["sqllineage.runner.split / SqlFluffLineageAnalyzer._list_specific_statement_segment (parser boundary)",
          "os.environ as seen by sqllineage.config (environment mechanism)"]
@@ -84,8 +84,17 @@ class DefaultSchemaOb(StmtOb):
         from checks.c15 import EnvShim
 
         old = cfgmod.os
-        cfgmod.os = EnvShim(real_os, {"SQLLINEAGE_DEFAULT_SCHEMA": S})
+        # env: the environment alone; env_in_scope: the environment while a scoped override of ANOTHER key is active;
+        # override_over_env: the environment names another schema and the scoped override wins
+        envS = SymStr.const("envother") if self.mech == "override_over_env" else S
+        cfgmod.os = EnvShim(real_os, {"SQLLINEAGE_DEFAULT_SCHEMA": envS})
         try:
+            if self.mech == "env_in_scope":
+                with SQLLineageConfig(LATERAL_COLUMN_ALIAS_REFERENCE=False):
+                    return self.dump(self.script.runner(names))
+            if self.mech == "override_over_env":
+                with SQLLineageConfig(DEFAULT_SCHEMA=S):
+                    return self.dump(self.script.runner(names))
             return self.dump(self.script.runner(names))
         finally:
             cfgmod.os = old
@@ -121,6 +130,12 @@ class DefaultSchemaOb(StmtOb):
 
         if self.mech == "override":
             r1 = R.run_real(conc["sql"], self.dialect, config={"DEFAULT_SCHEMA": conc["S"]}, cyto=True)
+        elif self.mech == "env_in_scope":
+            r1 = R.run_real(conc["sql"], self.dialect, env={"SQLLINEAGE_DEFAULT_SCHEMA": conc["S"]},
+                            config={"LATERAL_COLUMN_ALIAS_REFERENCE": False}, cyto=True)
+        elif self.mech == "override_over_env":
+            r1 = R.run_real(conc["sql"], self.dialect, env={"SQLLINEAGE_DEFAULT_SCHEMA": "envother"},
+                            config={"DEFAULT_SCHEMA": conc["S"]}, cyto=True)
         else:
             r1 = R.run_real(conc["sql"], self.dialect, env={"SQLLINEAGE_DEFAULT_SCHEMA": conc["S"]}, cyto=True)
         r2 = R.run_real(conc["sql2"], self.dialect, cyto=True)
@@ -167,6 +182,9 @@ def obligations(tier, seed):
         obs = keep + rnd.sample(rest, len(rest) // 3)
     envs = [DefaultSchemaOb(k, st, "ansi", "env", budget, seed) for k, st in tpl if "/plain" in k and k.startswith(("insert/", "ctas/"))]
     obs += envs if tier == "thorough" else rnd.sample(envs, len(envs) // 2)
+    for mech in ("env_in_scope", "override_over_env"):
+        more = [DefaultSchemaOb(k, st, "ansi", mech, budget, seed) for k, st in tpl if "/plain" in k and k.startswith(("insert/", "ctas/"))]
+        obs += more if tier == "thorough" else rnd.sample(more, max(4, len(more) // 6))
     # the legacy analyzer creates its tables elsewhere (sqlparse/models.py): same twin there
     lsub = [(k, st) for k, st in tpl if ("/plain" in k and k.startswith("insert/") and "paren" not in k and "mixed" not in k) or k.startswith(("update/", "merge/table"))]
     for k, st in (lsub if tier == "thorough" else rnd.sample(lsub, min(len(lsub), 16))):
